@@ -40,18 +40,21 @@ def write_file(fspec, fs, env, name, plan=None, observer=None):
         observer.install()
     fs.plan[name] = plan or {}
     via = fspec.get("via", "path")
+    # argument kinds the BF3 layer copes with: a key handed over as bytes or as a bytearray (the BEC2 layer
+    # concatenates the key with bytes objects and needs real bytes, as its type hints say)
+    as_buf = fspec.get("rng", 0) % 5 == 0
     if fspec["kind"] == "bf3":
         w.key = bytes.fromhex(fspec["key"])
         w.decryptors = {}
         w.obj = obj
 
         def do(target):
-            obj.write_file(target, w.key)
+            obj.write_file(target, bytearray(w.key) if as_buf else w.key)
     else:
         abs_, wenc, dec = prov.build_blocks(fspec["blocks"], env, decoys=fspec.get("decoys", False))
         key = bytes.fromhex(fspec["key"]) if fspec.get("key") else None
-        bec = env.bec2file.Bec2File(obj, abs_, key)
-        w.key = bec.session_key
+        bec = env.bec2file.Bec2File(obj, (a for a in abs_) if fspec.get("rng", 0) % 7 == 0 else abs_, key)
+        w.key = bytes(bec.session_key)
         w.decryptors = dec
         w.obj = bec
         w.wenc = wenc
